@@ -48,6 +48,9 @@ package absnfs
 //@ functype nfsHandler(h, body, reply, authCtx)
 //@ prop C08
 //@ requires srvOK(h) && reply != nil && authCtx != nil
+// C29: a handler runs under the policy read lock HandleCall acquired for it (the rate limiter it may consult is
+// replaced under the write lock only)
+//@ requires [under-policy-read-lock] {C29} held(h.server.handler.policyRWMu) > 0
 //@ modifies everything, allghosts - handlerCalls - atomicptr - lsncfg - poolsrc - ioCalls - ioReplies, locks, once
 // while the read-only policy is in force the handler issues no modifying backend operation
 //@ ensures [ro-no-backend-mutation] old(curPolicy(h.server.handler).ReadOnly) ==> mutlog == old(mutlog)
